@@ -727,7 +727,7 @@ func (w *capture) Write(p []byte) (int, error) {
 var levelNames = map[zerolog.Level]string{zerolog.TraceLevel: "trace", zerolog.DebugLevel: "debug", zerolog.InfoLevel: "info", zerolog.WarnLevel: "warn", zerolog.ErrorLevel: "error"}
 
 func runEvents(c *Ctx) {
-	nprog := 700
+	nprog := 2000
 	if c.Thorough() {
 		nprog = 12000
 	}
